@@ -4,6 +4,7 @@ import (
 	"fmt"
 	"go/types"
 	"math/big"
+	"os"
 	"regexp"
 	"strings"
 	"sync"
@@ -212,6 +213,9 @@ func (te *TypeEnv) tag(t types.Type) int {
 	id := len(te.tagType)
 	te.tags[k] = id
 	te.tagType = append(te.tagType, t)
+	if os.Getenv("RAINVC_DEBUG") != "" {
+		fmt.Fprintf(os.Stderr, "tag %d = %s\n", id, k)
+	}
 	return id
 }
 
